@@ -14,7 +14,7 @@ class Engine:
         if env:
             e.update(env)
         self.p = subprocess.Popen([C.ENGINE], stdin=subprocess.PIPE, stdout=subprocess.PIPE,
-                                  stderr=subprocess.PIPE, text=True, bufsize=1, env=e)
+                                  stderr=subprocess.PIPE, text=True, bufsize=1, env=e, encoding="utf-8", errors="replace")
         self.out = []   # (t, line)
         self.err = []
         self.t0 = time.time()
@@ -35,6 +35,16 @@ class Engine:
             self.p.stdin.flush()
             return True
         except (BrokenPipeError, OSError):
+            return False
+
+    def send_bytes(self, raw):
+        """one line given as BYTES (not necessarily valid UTF-8); the newline is added"""
+        try:
+            self.p.stdin.flush()
+            self.p.stdin.buffer.write(raw + b"\n")
+            self.p.stdin.buffer.flush()
+            return True
+        except (BrokenPipeError, OSError, ValueError):
             return False
 
     def lines(self):
